@@ -38,10 +38,50 @@ def run(tier, seed, replay_rows=None):
                      describe=lambda t: json.dumps(dict(args=t["cfg"]["args"], err=t["err"],
                                                         ev=[[e["k"], e["a"], e["b"]] for e in t["ev"]]))[:1500],
                      replay_rows=replay_rows, workers=8)
+    spec_grain(ck, rows)
     if replay_rows is None:
         runtraces.extra(ck, "C02", "c02stress", "c02stress.ndjson")
         runtraces.check(ck, "C02")
     return ck.finish()
+
+
+def spec_grain(ck, rows):
+    """Trace validation against TriggerPool.tla's OWN actions: every arrival of a goroutine at a yield point must be
+    reachable by steps of that process in the specification; the final ledger must equal the real statistics."""
+    import copy
+    import os
+    by = {}
+    for r in rows:
+        if not r.get("err") and r.get("arr"):
+            by.setdefault(r["maxiter"], []).append(r)
+    with vlib.Scratch("verif-c02tp-") as d:
+        for k, lst in sorted(by.items()):
+            if k not in (0, 1, 2, 3, 4):
+                continue
+            f = os.path.join(d, "tp_%d.ndjson" % k)
+            vlib.write_ndjson(f, [dict(workers=r["workers"], maxiter=r["maxiter"], arr=r["arr"]) for r in lst])
+            res, bad = vlib.validate_rows("Trace_TriggerPool", "Trace_TriggerPool_%d.cfg" % k, f, var="tr", workers=4)
+            ck.add_tlc("Trace_TriggerPool_%d.cfg" % k, res)
+            ck.traces += len(lst)
+            for b in bad:
+                t = lst[b - 1]
+                pos = vlib.last_index(res.output, b, var_tr="tr")
+                ck.observe("pool-schedule-not-a-behaviour-of-TriggerPool",
+                           "the real pool did something TriggerPool.tla does not allow: %s; rejected at arrival %s: %s" % (
+                               t["cfg"]["args"][:300], pos, json.dumps(t["arr"][max(0, (pos or 0) - 6):(pos or 0) + 2])),
+                           dict(rows=[t]))
+            # binding self-test: a ledger that is off by one must be rejected
+            muts = []
+            for t in lst[:3]:
+                m = dict(workers=t["workers"], maxiter=t["maxiter"], arr=copy.deepcopy(t["arr"]))
+                m["arr"][-1][3] += 1
+                muts.append(m)
+            f2 = os.path.join(d, "mut_%d.ndjson" % k)
+            vlib.write_ndjson(f2, muts)
+            r2, bad2 = vlib.validate_rows("Trace_TriggerPool", "Trace_TriggerPool_%d.cfg" % k, f2, var="tr", workers=2)
+            if len(bad2) != len(muts):
+                raise vlib.MachineryError("Trace_TriggerPool self-test: %d corrupted traces, %d rejected" % (len(muts), len(bad2)))
+            ck.notes["trace_triggerpool_selftest_rejected"] = ck.notes.get("trace_triggerpool_selftest_rejected", 0) + len(bad2)
 
 
 def replay(path, seed):
